@@ -13,7 +13,9 @@
 //!    boundary domain of instants (with nanosecond neighbours);
 //!  * all 20-octet arrays with at most three non-zero octets from
 //!    {01,7F,80,FF}: text, DER, order; hand-built INTEGER TLVs; decimal strings
-//!    around the maximum.
+//!    around the maximum;
+//!  * every encoder written into sinks that take only part of a buffer per
+//!    call, are interrupted, buffered, exactly full, too short or broken.
 //!
 //! Reference model: own proleptic-Gregorian arithmetic (days-from-civil and an
 //! independent year-counting formula, cross-checked against each other), own
@@ -22,6 +24,7 @@
 
 use std::cmp::Ordering;
 use std::collections::BTreeMap;
+use std::io::{self, Write};
 use std::str::FromStr;
 use std::sync::Mutex;
 use bcder::Mode;
@@ -242,6 +245,57 @@ fn combos(n: usize, k: usize) -> Vec<Vec<usize>> {
     let mut out = Vec::new();
     rec(0, n, k, &mut Vec::new(), &mut out);
     out
+}
+
+//------------ sinks for the writer dimension ---------------------------------
+
+/// A byte sink with a stated behaviour: at most `k` octets per call, an
+/// optional one-off ErrorKind::Interrupted, an optional total capacity
+/// (reports Ok(0) when full, like a Cursor over a slice) and an optional
+/// hard failure after `fail_after` octets.
+struct Sink { k: usize, first_one: bool, interrupt: bool, capacity: Option<usize>, fail_after: Option<usize>, got: Vec<u8> }
+impl Write for Sink {
+    fn write(&mut self, b: &[u8]) -> io::Result<usize> {
+        if self.interrupt { self.interrupt = false; return Err(io::Error::new(io::ErrorKind::Interrupted, "interrupted")) }
+        if let Some(n) = self.fail_after { if self.got.len() >= n { return Err(io::Error::new(io::ErrorKind::Other, "sink broke")) } }
+        let mut n = b.len().min(self.k);
+        if self.first_one && n > 0 { self.first_one = false; n = 1 }
+        if let Some(c) = self.capacity { n = n.min(c - self.got.len()) }
+        if let Some(f) = self.fail_after { n = n.min(f - self.got.len()) }
+        self.got.extend_from_slice(&b[..n]);
+        Ok(n)
+    }
+    fn flush(&mut self) -> io::Result<()> { Ok(()) }
+}
+
+#[derive(Clone, Copy, Debug)]
+enum SinkKind { Chunk(usize), FirstOne, Interrupted(usize), Exact, Short(usize), Buffered(usize, usize), FailAfter(usize) }
+impl SinkKind {
+    fn all() -> Vec<SinkKind> {
+        use SinkKind::*;
+        vec![Chunk(usize::MAX), Chunk(1), Chunk(2), Chunk(7), FirstOne, Interrupted(usize::MAX), Interrupted(1), Exact, Short(1), Short(3), Buffered(8192, 1), Buffered(4, 1), FailAfter(0), FailAfter(3)]
+    }
+    fn healthy(self) -> bool { !matches!(self, SinkKind::Short(_) | SinkKind::FailAfter(_)) }
+    /// Runs one encoder into the sink; returns its result and what arrived.
+    fn run(self, len: usize, enc: &dyn Fn(&mut dyn Write) -> io::Result<()>) -> (Result<(), String>, Vec<u8>) {
+        let mut s = Sink { k: usize::MAX, first_one: false, interrupt: false, capacity: None, fail_after: None, got: Vec::new() };
+        match self {
+            SinkKind::Chunk(k) => s.k = k,
+            SinkKind::FirstOne => s.first_one = true,
+            SinkKind::Interrupted(k) => { s.interrupt = true; s.k = k }
+            SinkKind::Exact => s.capacity = Some(len),
+            SinkKind::Short(n) => s.capacity = Some(len.saturating_sub(n)),
+            SinkKind::FailAfter(n) => s.fail_after = Some(n),
+            SinkKind::Buffered(cap, k) => {
+                s.k = k;
+                let mut bw = io::BufWriter::with_capacity(cap, s);
+                let r = enc(&mut bw).and_then(|_| bw.flush()).map_err(|e| format!("{:?}", e.kind()));
+                return match bw.into_inner() { Ok(s) => (r, s.got), Err(_) => (Err("into_inner".into()), Vec::new()) }
+            }
+        }
+        let r = enc(&mut s).map_err(|e| format!("{:?}", e.kind()));
+        (r, s.got)
+    }
 }
 
 //------------ reference big numbers for Serial ----------------------------
@@ -886,6 +940,59 @@ fn main() {
         for &v in &v128 { one(v, false) }
     }
     sp.done(true, "all boundary integers of both widths");
+
+    // ---------------------------------------------------------------- (14)
+    let sp = ctx.space("encode.writers",
+        "the writer as a dimension of the encoders (all write through io::Write): encode_varied / encode_utc_time / encode_generalized_time of 26 instants, Validity::encode of all pairs of 6 of them, Serial::encode of every valid array with <= 2 non-zero octets, each written with write_encoded into 14 sinks (everything at once; 1, 2, 7 octets per call; first call 1 octet; ErrorKind::Interrupted once; capacity exactly the length; 1 and 3 octets short; BufWriter of capacity 8192 and 4 around a 1-per-call sink; breaking after 0 and 3 octets). Oracle: if write_encoded returns Ok the octets that arrived must decode back to the value (and equal the reference TLV); an error is acceptable only from a sink that cannot take the value; non-trivial = cases whose sink does not take everything in one call");
+    {
+        let sinks = SinkKind::all();
+        let civ: Vec<(i64, u32, u32, u32)> = vec![(1, 1, 1, 0), (999, 12, 31, 86399), (1949, 12, 31, 86399), (1950, 1, 1, 0), (1970, 1, 1, 1), (1999, 12, 31, 86399), (2000, 2, 29, 43200),
+            (2024, 2, 29, 3661), (2049, 12, 31, 86399), (2050, 1, 1, 0), (2100, 2, 28, 86399), (9999, 12, 31, 86399), (2038, 1, 19, 11647)];
+        let mut lf = Lf::new(&ctx); let mut oc = Oc::new();
+        let mut judge = |lf: &mut Lf, oc: &mut Oc, what: &dyn Fn() -> String, want: &[u8], enc: &dyn Fn(&mut dyn Write) -> io::Result<()>, back: &dyn Fn(&[u8]) -> bool| {
+            for &k in &sinks {
+                sp.eval(); if !matches!(k, SinkKind::Chunk(usize::MAX) | SinkKind::Exact) { sp.nontrivial(1) }
+                let wit = || format!("{} sink={:?}", what(), k);
+                match guard(|| k.run(want.len(), enc)) {
+                    Err(p) => lf.fail("C17.encode.no_panic", wit, || p.clone()),
+                    Ok((Err(e), got)) => if k.healthy() { lf.fail("C17.encode.writer", wit, || format!("write_encoded failed ({e}) on a sink that accepts everything it is given; {} of {} octets arrived", got.len(), want.len())) }
+                        else { bump(oc, "error-surfaced-from-failing-sink") },
+                    Ok((Ok(()), got)) => if got != want || !back(&got) {
+                        lf.fail("C17.encode.writer", wit, || format!("write_encoded returned Ok but the sink holds {} ({} octets), the value encodes as {}", hex(&got), got.len(), hex(want)))
+                    } else { bump(oc, "complete") },
+                }
+            }
+        };
+        for &(y, mo, d, sod) in &civ {
+            let ts = days_from_civil(y, mo, d) * 86400 + sod as i64;
+            let t = mk_time(ts, 0);
+            let want = model_encode(y, mo, d, sod, None);
+            judge(&mut lf, &mut oc, &|| format!("encode_varied {}", render_ts(ts)), &want, &|w| t.encode_varied().write_encoded(Mode::Der, &mut { w }), &|b| lib_take(b) == Ok((ts, 0)));
+            let want_g = model_encode(y, mo, d, sod, Some(GEN));
+            judge(&mut lf, &mut oc, &|| format!("encode_generalized_time {}", render_ts(ts)), &want_g, &|w| t.encode_generalized_time().write_encoded(Mode::Der, &mut { w }), &|b| lib_take(b) == Ok((ts, 0)));
+            if (1950..=2049).contains(&y) {
+                let want_u = model_encode(y, mo, d, sod, Some(UTC));
+                judge(&mut lf, &mut oc, &|| format!("encode_utc_time {}", render_ts(ts)), &want_u, &|w| t.encode_utc_time().write_encoded(Mode::Der, &mut { w }), &|b| lib_take(b) == Ok((ts, 0)));
+            }
+        }
+        for &a in civ.iter().step_by(2).take(6) { for &b in civ.iter().step_by(2).take(6) {
+            let (ta, tb) = (days_from_civil(a.0, a.1, a.2) * 86400 + a.3 as i64, days_from_civil(b.0, b.1, b.2) * 86400 + b.3 as i64);
+            let mut body = model_encode(a.0, a.1, a.2, a.3, None); body.extend_from_slice(&model_encode(b.0, b.1, b.2, b.3, None));
+            let want = tlv(0x30, &body);
+            let v = Validity::new(mk_time(ta, 0), mk_time(tb, 0));
+            judge(&mut lf, &mut oc, &|| format!("Validity::encode nb={} na={}", render_ts(ta), render_ts(tb)), &want, &|w| v.encode().write_encoded(Mode::Der, &mut { w }),
+                &|x| Mode::Der.decode(x, |cons| Validity::take_from(cons)).map(|r| (inst(r.not_before()), inst(r.not_after()))).ok() == Some(((ta, 0), (tb, 0))));
+        }}
+        for a in small.iter().filter(|a| a[0] & 0x80 == 0) {
+            let s = Serial::from_array(*a).expect("valid");
+            let want = tlv(0x02, &int_content(a));
+            judge(&mut lf, &mut oc, &|| format!("Serial::encode array={}", hex(a)), &want, &|w| s.encode().write_encoded(Mode::Der, &mut { w }), &|b| lib_serial_take(b) == Ok(s));
+        }
+        sp.merge_outcomes(&oc);
+        sp.set("sinks", serde_json::json!(sinks.iter().map(|k| format!("{k:?}")).collect::<Vec<_>>()));
+        sp.sample_str(|| format!("encode_varied 2049-12-31T23:59:59Z sink={:?}", SinkKind::Chunk(1)));
+    }
+    sp.done(true, "all listed values x 14 sinks");
 
     emit_failures(&ctx);
     ctx.finish();
